@@ -109,7 +109,7 @@ pub fn spec(id: &str) -> Option<Spec> {
         "C01" => Some(Spec {
             id: "C01",
             level: "exploration",
-            rule: "Stream-facing slice of totality. (a) 1360 deep-nesting peers: 16 shapes (flow / block sequences, flow mappings, mixed, anchored and replayed twice, as mapping key, newtype-variant chain, recursive struct chain, tagged, anchored containers nested in each other, failed document whose skipped remainder defines many anchors, block-style nested mappings - the parser refuses flow nesting beyond 256 levels -, the same as value of a merge key, as complex key, as merge source through an alias) x depths {1,9,12,20,64,500,1000,1500,1990,1999,2000,2001,2010,3000,10^4,4*10^4,10^5} x 5 targets, default budget, on worker threads with exactly 8 MiB of stack. (b) Seeded cases: a generated document / stream / token soup / corpus entry / deep or wide peer / `!!binary` scalar with well-formed, padded, over-padded, truncated and whitespace-broken payloads / document for the validated struct whose failing field has no YAML key that maps back / UTF-16 re-encoding, 0..3 channel corruptions (bit flip, byte drop, chunk duplication, adjacent-chunk swap, truncation, insertion from the indicator alphabet and of invalid UTF-8), delivered under a swarmed chunk schedule with 0..2 read faults (incl. Interrupted, by read index or byte), optionally one non-sticky EOF, swarmed options incl. tight budgets and alias limits, a reader that blocks for ever when polled after its end (one poll = the hang), documents whose markers stand beyond column 65535 under crop radii of 65536 and more, small documents for the probe types, into 34 target types (20 of the family and 14 probe types: reads nothing, sequences and maps of such, under-reading map visitor, value-first map visitor, variant-name-only enum visitor, deep / wide recursive types; their Deserialize impls count their calls), through every entry point: from_slice, from_slice_multiple, from_str, from_multiple, with_deserializer_from_slice, from_reader, with_deserializer_from_reader (closures that deserialize, ignore the deserializer, or skip), read, read_with_options (also abandoned after one item), and the garde / validator variants. Oracle: no unwind out of the library, no process abort (supervisor), bounded steps (SimReader post-end poll bound, hook H1, iterator item bound = input length + 8), every returned error renders with every renderer and through the miette adapter without panicking or hanging. One evaluation = one entry-point call. Non-trivial and distinct = distinct reader request-trace digests.".into(),
+            rule: "Stream-facing slice of totality. (a) 1360 deep-nesting peers: 16 shapes (flow / block sequences, flow mappings, mixed, anchored and replayed twice, as mapping key, newtype-variant chain, recursive struct chain, tagged, anchored containers nested in each other, failed document whose skipped remainder defines many anchors, block-style nested mappings - the parser refuses flow nesting beyond 256 levels -, the same as value of a merge key, as complex key, as merge source through an alias) x depths {1,9,12,20,64,500,1000,1500,1990,1999,2000,2001,2010,3000,10^4,4*10^4,10^5} x 5 targets, default budget, on worker threads with exactly 8 MiB of stack. (a2) 552 crop peers: one-line documents whose error lies 40-75, 100-103, 127-129, 200, 500 or 1000 characters to the right, with multi-byte fill (2-, 3-, 4-byte characters, mixed) in the part the renderer cuts away and at the location; type error in a flow mapping, stray text behind a quoted scalar, wrong element in a flow sequence. (b) Seeded cases: a generated document / stream / token soup / corpus entry / deep or wide peer / `!!binary` scalar with well-formed, padded, over-padded, truncated and whitespace-broken payloads / document for the validated struct whose failing field has no YAML key that maps back / UTF-16 re-encoding, 0..3 channel corruptions (bit flip, byte drop, chunk duplication, adjacent-chunk swap, truncation, insertion from the indicator alphabet and of invalid UTF-8), delivered under a swarmed chunk schedule with 0..2 read faults (incl. Interrupted, by read index or byte), optionally one non-sticky EOF, swarmed options incl. tight budgets and alias limits, a reader that blocks for ever when polled after its end (one poll = the hang), documents whose markers stand beyond column 65535 under crop radii of 65536 and more, small documents for the probe types, into 34 target types (20 of the family and 14 probe types: reads nothing, sequences and maps of such, under-reading map visitor, value-first map visitor, variant-name-only enum visitor, deep / wide recursive types; their Deserialize impls count their calls), through every entry point: from_slice, from_slice_multiple, from_str, from_multiple, with_deserializer_from_slice, from_reader, with_deserializer_from_reader (closures that deserialize, ignore the deserializer, or skip), read, read_with_options (also abandoned after one item), and the garde / validator variants. Oracle: no unwind out of the library, no process abort (supervisor), bounded steps (SimReader post-end poll bound, hook H1, iterator item bound = input length + 8), every returned error renders with every renderer and through the miette adapter without panicking or hanging. One evaluation = one entry-point call. Non-trivial and distinct = distinct reader request-trace digests.".into(),
             assumptions: vec![
                 "exhaustive enumeration of short token strings for the in-memory entry points is bounded enumeration of a pure function and is not done here (DESIGN.md §3 C01)".into(),
                 "the stack clause is tied to the default budget by the statement: inputs larger than 4000 bytes always run with a budget".into(),
